@@ -6,6 +6,7 @@ programs parse and ground is decided with the real clingo / telingo on every out
 import Cnl2aspModel.Compiler.Value
 import Cnl2aspModel.Cnl.Safety
 import Cnl2aspModel.Asp.GramLemmas
+import Cnl2aspModel.Generated.Tables
 
 namespace Cnl2aspModel.Value
 
@@ -136,6 +137,21 @@ theorem C06_rule_syntax (r : Rule) (h : wfRule r = true) : Stmt (toks (ruleP non
 /-- a whole encoding (constant directives, program parts, rules) prints to a program of the grammar -/
 theorem C06_program_syntax (e : Encoding) (h : (e.programs.all fun p => p.rules.all wfRule) = true) :
     Prog (toks (encodingP none e)) := prog_of_encoding e h
+
+/-- the symbols of the compiler's own tables (regenerated from the current source before every build: ASPOperation.operators,
+ASPTemporalOperation.asp_temporal_operators, ASPAggregate.symbols) are symbols of the grammar: every comparison / arithmetic
+symbol, every temporal operator, every aggregate function name the printers can emit -/
+theorem C06_symbols_in_grammar :
+    (∀ o s, Generated.aspSymbol o = some s → isCmp s = true ∨ isArithSym s = true ∨ s = "|") ∧
+    (∀ o s, Generated.telSymbol o = some s → isTelSym s = true) ∧
+    (∀ o s, Generated.aggSymbol o = some s → isAggSym s = true) := by
+  refine ⟨?_, ?_, ?_⟩
+  · intro o s h
+    cases o <;> simp only [Generated.aspSymbol, Option.some.injEq, reduceCtorEq] at h <;> subst h <;> decide
+  · intro o s h
+    cases o <;> simp only [Generated.telSymbol, Option.some.injEq, reduceCtorEq] at h <;> subst h <;> decide
+  · intro o s h
+    cases o <;> simp only [Generated.aggSymbol, Option.some.injEq, reduceCtorEq] at h <;> subst h <;> decide
 
 /-- non-vacuity: a choice rule with a head condition, a body with a negated atom, an aggregate comparison, an arithmetic
 comparison and a temporal formula is well-formed (the driver prints it as
